@@ -9,6 +9,7 @@ import (
 	"testing"
 
 	"github.com/onflow/crypto"
+	"github.com/onflow/crypto/hash"
 
 	"verifharness/gen"
 	"verifharness/oracle/bls381"
@@ -185,12 +186,31 @@ func TestC17_NonBLS(t *testing.T) {
 		k := drawKey(g, "key")
 		h := crypto.NewExpandMsgXOFKMAC128("t")
 		pr, _ := crypto.SPOCKProve(k.sk, []byte("d"), h)
-		if p, err := crypto.SPOCKProve(ek, []byte("d"), h); p != nil || !crypto.IsNotBLSKeyError(err) {
-			g.Fatalf("SPOCKProve(ECDSA key) = (%x, %v)", []byte(p), err)
+		// "refuse non-BLS keys with the not-a-BLS-key error" has no condition on the other arguments: the hasher that comes
+		// with such a key is often the wrong one as well (nil, SHA2/SHA3 for an ECDSA key, a KMAC of another size)
+		var eh hash.Hasher = h
+		ehKind := g.Int("hasherWithNonBLSKey", 0, 4)
+		switch ehKind {
+		case 1:
+			eh = nil
+		case 2:
+			eh = hash.NewSHA2_256()
+		case 3:
+			eh = hash.NewSHA3_256()
+		case 4:
+			eh, _ = hash.NewKMAC_128([]byte("0123456789abcdef"), nil, 64)
 		}
-		if ok, err := crypto.SPOCKVerifyAgainstData(ek.PublicKey(), pr, []byte("d"), h); ok || !crypto.IsNotBLSKeyError(err) {
-			g.Fatalf("SPOCKVerifyAgainstData(ECDSA key) = (%v, %v)", ok, err)
+		epr := pr
+		if g.Bool("shortProofWithNonBLSKey") {
+			epr = pr[:g.Int("proofLen", 0, 47)]
 		}
+		if p, err := crypto.SPOCKProve(ek, []byte("d"), eh); p != nil || !crypto.IsNotBLSKeyError(err) {
+			g.Fatalf("SPOCKProve(ECDSA key, hasher kind %d) = (%x, %v), the not-a-BLS-key error is documented", ehKind, []byte(p), err)
+		}
+		if ok, err := crypto.SPOCKVerifyAgainstData(ek.PublicKey(), epr, []byte("d"), eh); ok || !crypto.IsNotBLSKeyError(err) {
+			g.Fatalf("SPOCKVerifyAgainstData(ECDSA key, %d-byte proof, hasher kind %d) = (%v, %v), the not-a-BLS-key error is documented", len(epr), ehKind, ok, err)
+		}
+		g.Class(fmt.Sprintf("nonBLSKey:hasherKind%d", ehKind))
 		if ok, err := crypto.SPOCKVerify(ek.PublicKey(), pr, k.pk, pr); ok || !crypto.IsNotBLSKeyError(err) {
 			g.Fatalf("SPOCKVerify(ECDSA key first) = (%v, %v)", ok, err)
 		}
